@@ -561,9 +561,11 @@ def check_load_args(ctx, res: Result):
                 cands = [defs[expr.id]] if expr.id in defs else [n.value for n in ast.walk(cf.node) if isinstance(n, ast.Assign) and any(isinstance(t_, ast.Name) and t_.id == expr.id for t_ in n.targets)]
                 if len({norm(x) for x in cands}) == 1:
                     expr = cands[0]
-            consts = {x.value for x in ast.walk(expr) if isinstance(x, ast.Constant) and isinstance(x.value, str)}
-            if "weighted" in consts or "_weighted" in consts:
+            consts = _str_consts(ctx, cf, expr)
+            if ("weighted" in consts or "_weighted" in consts) and "weight" not in consts:
                 res.ok("S-LOADARGS", load.short, f"{t}: {norm(c)[:100]}", "weighted-from-header", loc(cf, c))
+            elif "weight" in consts and ("weighted" in consts or "_weighted" in consts):
+                res.violation("S-LOADARGS", load.short, f"{t}: {norm(c)[:100]}", "weighted-from-header", f"the weightedness of the loaded object is not the header's flag alone: `{norm(expr)[:60]}` also looks for a `weight` entry in the edge records, and the writer stores the user's metadata in that very dict - an UNWEIGHTED hypergraph with a metadata key named `weight` reloads as weighted", loc(cf, c))
             elif "weight" in consts or any(isinstance(x, (ast.GeneratorExp, ast.ListComp)) for x in ast.walk(expr)):
                 res.violation("S-LOADARGS", load.short, f"{t}: {norm(c)[:100]}", "weighted-from-header", f"the weightedness of the loaded object is inferred from the edge records (`{norm(expr)[:80]}`) instead of read from the header: a weighted hypergraph without hyperedges reloads as unweighted", loc(cf, c))
             else:
